@@ -3,10 +3,14 @@ import NetVerif.Proofs.Lemmas.QpackBasic
 namespace NetVerif.Proofs.C33RT
 open NetVerif.Model.H3Stream NetVerif.Model.Qpack NetVerif.Proofs.QpackBasic
 
-/-- The Huffman codec hypotheses (hpack is outside the anchored files). -/
+/-- Byte strings: every element is a byte. -/
+def Bytes (s : List Nat) : Prop := ∀ b ∈ s, b < 256
+
+/-- What the round trip needs from the Huffman codec (hpack is outside the anchored files);
+discharged for the HPACK model of C04 in `Proofs/C33.lean` (`huffOK`). -/
 structure HuffOK (H : Huff) : Prop where
-  dec_enc : ∀ s, H.dec (H.enc s) = some s
-  len_enc : ∀ s, (H.enc s).length = H.encLen s
+  dec_enc : ∀ s, Bytes s → H.dec (H.enc s) = some s
+  len_enc : ∀ s, Bytes s → (H.enc s).length = H.encLen s
 
 /-- What the decoder must deliver for an encoder input: names lower-cased, names that are not
 printable ASCII dropped, flag and value kept. -/
@@ -93,7 +97,7 @@ theorem appendPrefixedString_ne_nil (H : Huff) (first p : Nat) (str : List Nat) 
   · intro h; exact appendPrefixedInt_ne_nil _ _ _ (List.append_eq_nil_iff.mp h).1
   · intro h; exact appendPrefixedInt_ne_nil _ _ _ (List.append_eq_nil_iff.mp h).1
 
-theorem readPrefixedString_append (H : Huff) (hH : HuffOK H) (str : List Nat) (hstr : str.length < 2 ^ 62)
+theorem readPrefixedString_append (H : Huff) (hH : HuffOK H) (str : List Nat) (hb : Bytes str) (hstr : str.length < 2 ^ 62)
     (s : St) (t : List Nat) (hd : s.dead = false)
     (hdata : s.data = appendPrefixedString H 0 7 str ++ t)
     (hlim : ((appendPrefixedString H 0 7 str).length : Int) ≤ s.lim) :
@@ -105,8 +109,8 @@ theorem readPrefixedString_append (H : Huff) (hH : HuffOK H) (str : List Nat) (h
     simp only [List.length_cons] at hlim ⊢
     obtain ⟨s1, hr1, hadv1, _⟩ := readByte_cons s b (tl ++ t) hd (by simpa using hdata) (by omega)
     have hd1 : s1.data = tl ++ t := by rw [hadv1.data, hdata]; simp
-    obtain ⟨s2, hr2, hadv2⟩ := readPrefixedStringWithByte_append H hH.dec_enc hH.len_enc 0 7 (by omega) (by omega)
-      (by simp) str hstr b tl henc s1 t hadv1.dead hadv1.primed hd1 (by rw [hadv1.lim]; omega)
+    obtain ⟨s2, hr2, hadv2⟩ := readPrefixedStringWithByte_append H str (hH.dec_enc str hb) (hH.len_enc str hb) 0 7 (by omega) (by omega)
+      (by simp) hstr b tl henc s1 t hadv1.dead hadv1.primed hd1 (by rw [hadv1.lim]; omega)
     refine ⟨b, s2, ?_, ?_⟩
     · unfold readPrefixedString
       rw [hr1]
@@ -120,6 +124,19 @@ theorem lowerHeader_length (a n : List Nat) (h : lowerHeader a = some n) : n.len
   unfold lowerHeader at h
   split at h
   · simp at h; subst h; simp
+  · cases h
+
+theorem lowerHeader_bytes (a n : List Nat) (h : lowerHeader a = some n) : Bytes n := by
+  unfold lowerHeader at h
+  split at h
+  · rename_i hp
+    simp at h; subst h
+    intro b hb
+    simp only [List.mem_map] at hb
+    obtain ⟨c, hc, rfl⟩ := hb
+    have := (List.all_eq_true.mp hp) c hc
+    simp at this
+    unfold lowerByte; split <;> omega
   · cases h
 
 theorem nameRef_firstByte (never : Bool) (i b' : Nat) (tl' : List Nat)
@@ -140,7 +157,7 @@ theorem litName_firstByte (H : Huff) (never : Bool) (n : List Nat) (b' : Nat) (t
 
 theorem decodeFieldLine_encodeField (H : Huff) (hH : HuffOK H) (tbl : List (List Nat × List Nat))
     (htbl : tbl.length < 2 ^ 62) (f : Field) (n : List Nat) (hn : lowerHeader f.name = some n)
-    (hsize : f.name.length < 2 ^ 62 ∧ f.value.length < 2 ^ 62)
+    (hsize : f.name.length < 2 ^ 62 ∧ f.value.length < 2 ^ 62) (hbv : Bytes f.value)
     (b : Nat) (tl : List Nat) (henc : encodeField H tbl f = b :: tl)
     (s : St) (t : List Nat) (hd : s.dead = false) (hpr : s.primed = true)
     (hdata : s.data = tl ++ t) (hlim : (tl.length : Int) ≤ s.lim) :
@@ -190,7 +207,7 @@ theorem decodeFieldLine_encodeField (H : Huff) (hH : HuffOK H) (tbl : List (List
           (by simp at hlim; omega)
         have hb := nameRef_firstByte f.never i b' tl' hpi
         have hd1 : s1.data = appendPrefixedString H 0 7 f.value ++ t := by rw [hadv.data, hdata]; simp
-        obtain ⟨b2, s2, hr2, hadv2⟩ := readPrefixedString_append H hH f.value hsize.2 s1 t hadv.dead hd1
+        obtain ⟨b2, s2, hr2, hadv2⟩ := readPrefixedString_append H hH f.value hbv hsize.2 s1 t hadv.dead hd1
           (by rw [hadv.lim]; simp at hlim; omega)
         refine ⟨s2, ?_, ?_⟩
         · unfold decodeFieldLine
@@ -216,12 +233,12 @@ theorem decodeFieldLine_encodeField (H : Huff) (hH : HuffOK H) (tbl : List (List
         have hf0 : (32 + nbit f.never 16) % 2 ^ (3 + 1) = 0 := by
           unfold nbit; cases f.never <;> simp
         have hnl : n.length < 2 ^ 62 := by rw [lowerHeader_length _ _ hn]; exact hsize.1
-        obtain ⟨s1, hr, hadv⟩ := readPrefixedStringWithByte_append H hH.dec_enc hH.len_enc _ 3 (by omega) (by omega)
-          hf0 n hnl b' tl' hps s (appendPrefixedString H 0 7 f.value ++ t) hd hpr (by rw [hdata]; simp)
+        obtain ⟨s1, hr, hadv⟩ := readPrefixedStringWithByte_append H n (hH.dec_enc n (lowerHeader_bytes _ _ hn)) (hH.len_enc n (lowerHeader_bytes _ _ hn)) _ 3 (by omega) (by omega)
+          hf0 hnl b' tl' hps s (appendPrefixedString H 0 7 f.value ++ t) hd hpr (by rw [hdata]; simp)
           (by simp at hlim; omega)
         have hb := litName_firstByte H f.never n b' tl' hps
         have hd1 : s1.data = appendPrefixedString H 0 7 f.value ++ t := by rw [hadv.data, hdata]; simp
-        obtain ⟨b2, s2, hr2, hadv2⟩ := readPrefixedString_append H hH f.value hsize.2 s1 t hadv.dead hd1
+        obtain ⟨b2, s2, hr2, hadv2⟩ := readPrefixedString_append H hH f.value hbv hsize.2 s1 t hadv.dead hd1
           (by rw [hadv.lim]; simp at hlim; omega)
         refine ⟨s2, ?_, ?_⟩
         · unfold decodeFieldLine
@@ -255,7 +272,7 @@ theorem encodeField_ne_nil (H : Huff) (tbl : List (List Nat × List Nat)) (f : F
 theorem decodeLoop_encodeFields (H : Huff) (hH : HuffOK H) (tbl : List (List Nat × List Nat))
     (htbl : tbl.length < 2 ^ 62) :
     ∀ (fs : List Field) (fuel : Nat) (s : St) (saw : Bool) (acc : List Field) (rest : List Nat),
-    (∀ f ∈ fs, f.name.length < 2 ^ 62 ∧ f.value.length < 2 ^ 62) →
+    (∀ f ∈ fs, f.name.length < 2 ^ 62 ∧ f.value.length < 2 ^ 62 ∧ Bytes f.value) →
     PseudoFirst saw (expected fs) → s.dead = false → s.primed = true →
     s.data = encodeFields H tbl fs ++ rest → s.lim = ((encodeFields H tbl fs).length : Int) →
     fuel > (encodeFields H tbl fs).length →
@@ -272,7 +289,7 @@ theorem decodeLoop_encodeFields (H : Huff) (hH : HuffOK H) (tbl : List (List Nat
     simp [hlim, expected]
   | cons f fs ih =>
     intro fuel s saw acc rest hsize hwf hd hpr hdata hlim hfuel
-    have hsize' : ∀ f ∈ fs, f.name.length < 2 ^ 62 ∧ f.value.length < 2 ^ 62 :=
+    have hsize' : ∀ f ∈ fs, f.name.length < 2 ^ 62 ∧ f.value.length < 2 ^ 62 ∧ Bytes f.value :=
       fun g hg => hsize g (List.mem_cons_of_mem _ hg)
     cases hn : lowerHeader f.name with
     | none =>
@@ -292,7 +309,8 @@ theorem decodeLoop_encodeFields (H : Huff) (hH : HuffOK H) (tbl : List (List Nat
         obtain ⟨s1, hr1, hadv1, _⟩ := readByte_cons s b (tl ++ encodeFields H tbl fs ++ rest) hd
           (by rw [hdata]) (by omega)
         have hd1 : s1.data = tl ++ (encodeFields H tbl fs ++ rest) := by rw [hadv1.data, hdata]; simp
-        obtain ⟨s2, hr2, hadv2⟩ := decodeFieldLine_encodeField H hH tbl htbl f n hn (hsize f (List.mem_cons_self))
+        obtain ⟨s2, hr2, hadv2⟩ := decodeFieldLine_encodeField H hH tbl htbl f n hn
+          ⟨(hsize f (List.mem_cons_self)).1, (hsize f (List.mem_cons_self)).2.1⟩ (hsize f (List.mem_cons_self)).2.2
           b tl henc s1 (encodeFields H tbl fs ++ rest) hadv1.dead hadv1.primed hd1 (by rw [hadv1.lim]; omega)
         have hd2 : s2.data = encodeFields H tbl fs ++ rest := by rw [hadv2.data, hd1]; simp
         have hl2 : s2.lim = ((encodeFields H tbl fs).length : Int) := by rw [hadv2.lim, hadv1.lim, hlim]; omega
@@ -323,7 +341,7 @@ length, followed by arbitrary bytes `rest`) delivers the lower-cased printable-A
 of `fs` in order with flags and values intact, consumes exactly the section and ends with `lim = 0`. -/
 theorem decode_encode (H : Huff) (hH : HuffOK H) (tbl : List (List Nat × List Nat)) (htbl : tbl.length < 2 ^ 62)
     (fs : List Field)
-    (hsize : ∀ f ∈ fs, f.name.length < 2 ^ 62 ∧ f.value.length < 2 ^ 62)
+    (hsize : ∀ f ∈ fs, f.name.length < 2 ^ 62 ∧ f.value.length < 2 ^ 62 ∧ Bytes f.value)
     (hwf : PseudoFirst false (expected fs))
     (rest : List Nat) (s : St) (hdead : s.dead = false)
     (hdata : s.data = encode H tbl fs ++ rest)
